@@ -58,7 +58,7 @@ impl Property for Escape {
     fn budget(&self, tier: Tier) -> Budget {
         Budget {
             cases: tier.pick(300_000, 20_000_000),
-            tape_len: 800,
+            tape_len: 1500,
         }
     }
     fn decode(&self, t: &mut Tape<'_>) -> EscCase {
